@@ -797,7 +797,7 @@ impl RuleCatalog {
         let content = serde_json::to_string_pretty(&catalog_file)
             .map_err(|e| format!("Failed to serialize catalog: {e}"))?;
 
-        fs::write(&self.catalog_path, content)
+        crate::storage::write_file_atomically(&self.catalog_path, content.as_bytes())
             .map_err(|e| format!("Failed to write catalog: {e}"))?;
 
         self.dirty = false;
